@@ -11,8 +11,8 @@ ASSUME = ['accepting forgeries that need >= 2 cancelling differences are sampled
 
 
 def harnesses():
-    return [with_args(H['aead'], 'aead', ['--arg', 'dec'], 600, 12000),
-            with_args(H['aead'], 'aead', ['--arg', 'sess'], 6000, 100000)]
+    return [with_args(H['aead'], 'aead', ['--arg', 'dec'], 600, 2500),
+            with_args(H['aead'], 'aead', ['--arg', 'sess'], 6000, 20000)]
 
 
 def run(ctx):
